@@ -31,6 +31,10 @@ type Op struct {
 	Limit  int
 	Keys   []string
 	Unique bool
+
+	// How the call is SPELLED – not part of the model line (the model has one document value and no context):
+	MutDocs bool // ins: the documents are handed over as MUTABLE types.Map values (repo c5fc5ad)
+	DeadCtx bool // ins/upd/del: the caller's context is already cancelled (the in-memory store must not care)
 }
 
 func S(s string) types.Value { return types.NewString(s) }
@@ -336,6 +340,12 @@ func anyMap(m types.Map) any {
 // Exec runs the operation on the store; panics of the implementation are caught.
 func Exec(st store.Store, o Op) (res Result) {
 	ctx := context.Background()
+	mctx := ctx
+	if o.DeadCtx {
+		c, cancel := context.WithCancel(ctx)
+		cancel()
+		mctx = c
+	}
 	defer func() {
 		if r := recover(); r != nil {
 			res = Result{Kind: "panic", Msg: fmt.Sprint(r)}
@@ -347,19 +357,22 @@ func Exec(st store.Store, o Op) (res Result) {
 		docs := make([]any, len(o.Docs))
 		for i, d := range o.Docs {
 			docs[i] = d
+			if o.MutDocs {
+				docs[i] = d.Mutable()
+			}
 		}
-		if err := st.Insert(ctx, docs); err != nil {
+		if err := st.Insert(mctx, docs); err != nil {
 			return fail(err)
 		}
 		return Result{Kind: "ok"}
 	case "upd":
-		n, err := st.Update(ctx, anyMap(o.Filter), o.Update, store.UpdateOptions{Upsert: o.Upsert})
+		n, err := st.Update(mctx, anyMap(o.Filter), o.Update, store.UpdateOptions{Upsert: o.Upsert})
 		if err != nil {
 			return fail(err)
 		}
 		return Result{Kind: "n", N: n}
 	case "del":
-		n, err := st.Delete(ctx, anyMap(o.Filter))
+		n, err := st.Delete(mctx, anyMap(o.Filter))
 		if err != nil {
 			return fail(err)
 		}
